@@ -188,3 +188,172 @@ impl slicec::visitor::Visitor for Recorder {
         self.events.push(json!({"cb": "type_ref", "id": x.type_string()}));
     }
 }
+
+// ---------------------------------------------------------------------------------------------------------------------
+// C09: the span of the element at a model path (see SliceSyntax.tla for the path scheme), by walking public fields.
+
+fn type_at<'a>(tr: &'a TypeRef, rest: &[Value]) -> Option<Span> {
+    if rest.is_empty() {
+        return Some(tr.span().clone());
+    }
+    let step = rest[0].as_str()?;
+    if step == "a" {
+        let j = rest.get(1)?.as_u64()? as usize;
+        return tr.attributes.get(j - 1).map(|a| a.borrow().span().clone());
+    }
+    match (tr.concrete_type(), step) {
+        (Types::Sequence(s), "e") => type_at(&s.element_type, &rest[1..]),
+        (Types::Dictionary(d), "k") => type_at(&d.key_type, &rest[1..]),
+        (Types::Dictionary(d), "v") => type_at(&d.value_type, &rest[1..]),
+        (Types::ResultType(r), "s") => type_at(&r.success_type, &rest[1..]),
+        (Types::ResultType(r), "x") => type_at(&r.failure_type, &rest[1..]),
+        _ => None,
+    }
+}
+
+fn attr_at(list: &[slicec::utils::ptr_util::WeakPtr<Attribute>], rest: &[Value]) -> Option<Span> {
+    let j = rest.first()?.as_u64()? as usize;
+    list.get(j - 1).map(|a| a.borrow().span().clone())
+}
+
+fn field_at(f: &Field, rest: &[Value]) -> Option<Span> {
+    match rest.first().and_then(|v| v.as_str()) {
+        None => Some(f.span().clone()),
+        Some("id") => Some(f.raw_identifier().span().clone()),
+        Some("tag") => f.raw_tag().map(|t| t.span().clone()),
+        Some("a") => attr_at(&f.attributes, &rest[1..]),
+        Some("t") => type_at(&f.data_type, &rest[1..]),
+        _ => None,
+    }
+}
+
+fn param_at(p: &Parameter, rest: &[Value]) -> Option<Span> {
+    match rest.first().and_then(|v| v.as_str()) {
+        None => Some(p.span().clone()),
+        Some("id") => Some(p.raw_identifier().span().clone()),
+        Some("tag") => p.raw_tag().map(|t| t.span().clone()),
+        Some("a") => attr_at(&p.attributes, &rest[1..]),
+        Some("t") => type_at(&p.data_type, &rest[1..]),
+        _ => None,
+    }
+}
+
+pub fn span_at(files: &[SliceFile], path: &[Value]) -> Option<Span> {
+    if path.len() < 2 || path[0] != "f" {
+        return None;
+    }
+    let f = files.get(path[1].as_u64()? as usize - 1)?;
+    let rest = &path[2..];
+    match rest.first().and_then(|v| v.as_str())? {
+        "fa" => attr_at(&f.attributes, &rest[1..]),
+        "m" => {
+            let m = f.module.as_ref()?.borrow();
+            match rest.get(1).and_then(|v| v.as_str()) {
+                None => Some(m.span().clone()),
+                Some("id") => Some(m.raw_identifier().span().clone()),
+                Some("a") => attr_at(&m.attributes, &rest[2..]),
+                _ => None,
+            }
+        }
+        "d" => {
+            let d = f.contents.get(rest.get(1)?.as_u64()? as usize - 1)?;
+            let rest = &rest[2..];
+            let step = rest.first().and_then(|v| v.as_str());
+            match d {
+                Definition::Struct(s) => {
+                    let s = s.borrow();
+                    match step {
+                        None => Some(s.span().clone()),
+                        Some("id") => Some(s.raw_identifier().span().clone()),
+                        Some("a") => attr_at(&s.attributes, &rest[1..]),
+                        Some("m") => field_at(s.fields().get(rest.get(1)?.as_u64()? as usize - 1)?, &rest[2..]),
+                        _ => None,
+                    }
+                }
+                Definition::Enum(e) => {
+                    let e = e.borrow();
+                    match step {
+                        None => Some(e.span().clone()),
+                        Some("id") => Some(e.raw_identifier().span().clone()),
+                        Some("a") => attr_at(&e.attributes, &rest[1..]),
+                        Some("u") => {
+                            let u = e.underlying.as_ref()?;
+                            match rest.get(1).and_then(|v| v.as_str()) {
+                                None => Some(u.span().clone()),
+                                Some("a") => attr_at(&u.attributes, &rest[2..]),
+                                _ => None,
+                            }
+                        }
+                        Some("n") => {
+                            let ens = e.enumerators();
+                            let n = ens.get(rest.get(1)?.as_u64()? as usize - 1)?;
+                            let rest = &rest[2..];
+                            match rest.first().and_then(|v| v.as_str()) {
+                                None => Some(n.span().clone()),
+                                Some("id") => Some(n.raw_identifier().span().clone()),
+                                Some("a") => attr_at(&n.attributes, &rest[1..]),
+                                Some("val") => match &n.value {
+                                    EnumeratorValue::Explicit(i) => Some(i.span().clone()),
+                                    _ => None,
+                                },
+                                Some("m") => field_at(n.fields().get(rest.get(1)?.as_u64()? as usize - 1)?, &rest[2..]),
+                                _ => None,
+                            }
+                        }
+                        _ => None,
+                    }
+                }
+                Definition::Interface(i) => {
+                    let i = i.borrow();
+                    match step {
+                        None => Some(i.span().clone()),
+                        Some("id") => Some(i.raw_identifier().span().clone()),
+                        Some("a") => attr_at(&i.attributes, &rest[1..]),
+                        Some("b") => {
+                            let b = i.bases.get(rest.get(1)?.as_u64()? as usize - 1)?;
+                            match rest.get(2).and_then(|v| v.as_str()) {
+                                None => Some(b.span().clone()),
+                                Some("a") => attr_at(&b.attributes, &rest[3..]),
+                                _ => None,
+                            }
+                        }
+                        Some("o") => {
+                            let ops = i.operations();
+                            let o = ops.get(rest.get(1)?.as_u64()? as usize - 1)?;
+                            let rest = &rest[2..];
+                            match rest.first().and_then(|v| v.as_str()) {
+                                None => Some(o.span().clone()),
+                                Some("id") => Some(o.raw_identifier().span().clone()),
+                                Some("a") => attr_at(&o.attributes, &rest[1..]),
+                                Some("p") => param_at(o.parameters().get(rest.get(1)?.as_u64()? as usize - 1)?, &rest[2..]),
+                                Some("r") => param_at(o.return_members().get(rest.get(1)?.as_u64()? as usize - 1)?, &rest[2..]),
+                                _ => None,
+                            }
+                        }
+                        _ => None,
+                    }
+                }
+                Definition::CustomType(c) => {
+                    let c = c.borrow();
+                    match step {
+                        None => Some(c.span().clone()),
+                        Some("id") => Some(c.raw_identifier().span().clone()),
+                        Some("a") => attr_at(&c.attributes, &rest[1..]),
+                        _ => None,
+                    }
+                }
+                Definition::TypeAlias(a) => {
+                    let a = a.borrow();
+                    match step {
+                        None => Some(a.span().clone()),
+                        Some("id") => Some(a.raw_identifier().span().clone()),
+                        Some("a") => attr_at(&a.attributes, &rest[1..]),
+                        Some("t") => type_at(&a.underlying, &rest[1..]),
+                        _ => None,
+                    }
+                }
+            }
+        }
+        _ => None,
+    }
+}
